@@ -15,7 +15,7 @@ for item in "$@"; do
   git -C $M checkout -q -- . ; git -C $M clean -fdq
   if ! git -C $M apply $D/patch.diff; then echo "APPLY-FAILED" >> $REPORT; continue; fi
   for p in $(echo $PROPS | tr ',' ' '); do
-    GOSYM_REPO=$M timeout 1800 /verif/bin/gosym check $p --tier quick --no-evidence 2>&1 | grep -E "^violation in|^VIOLATION|^PASS|^INCONCLUSIVE property|LOAD-ERROR|^INCONCLUSIVE: .*unsupported" | cut -c1-220 | sort | uniq -c | head -8 >> $REPORT
+    GOSYM_REPO=$M timeout 1800 /verif/bin/gosym check $p --tier quick --no-evidence 2>&1 | grep -E "^violation in|^VIOLATION|^PASS|^INCONCLUSIVE property|LOAD-ERROR|^INCONCLUSIVE: .*unsupported" | cut -c1-220 | sort | uniq -c | head -24 >> $REPORT
   done
   git -C $M checkout -q -- . ; git -C $M clean -fdq
 done
